@@ -58,32 +58,37 @@ Proof. vm_compute. reflexivity. Qed.
    declarations without initialiser, loops, loads / calls / ++ in expressions (not in pfrag).  These stay decided per run (K2 + differential oracle). *)
 From RZ.proofs Require Import SeqLaws ExprCorrect StmtCorrect.
 Theorem C05_statements_correct_repaired :
-  forall (cfg : config) (rw : regwidth) (IM : string -> bool) (ilsubs : subenv) (E : cenv) (csub : csubs) xi prog V',
-  cfg_fx cfg = all_fixes -> cfg_params cfg = [] -> im_ok IM -> sfrags rw IM [] prog V' ->
+  forall (cfg : config) (rw : regwidth) (IM : string -> bool) (ilsubs : subenv) (E : cenv) (csub : csubs) xi prog D' V',
+  cfg_fx cfg = all_fixes -> cfg_params cfg = [] -> macs_std (cfg_macros cfg) -> subs_ext (cfg_subs cfg) -> csub_ext csub ->
+  im_ok IM -> sfrags rw IM [] [] prog D' V' ->
   exists eff, tlower_info cfg prog = OK (mkti eff (cfg_hstart cfg) 0 false []) /\
     tlower cfg prog = OK (eff, cfg_hstart cfg) /\
-    forall cs ms fuel cs', srel IM E [] cs ms -> cexecs E csub xi fuel cs prog = Some cs' ->
-      exists ms', runs rw ilsubs eff ms ms' /\ srel IM E V' cs' ms'.
+    forall cs ms fuel cs', srel IM E [] [] cs ms -> imm_fresh IM cs -> cexecs E csub xi fuel cs prog = Some cs' ->
+      exists ms', runs rw ilsubs eff ms ms' /\ srel IM E D' V' cs' ms'.
 Proof. exact tlower_correct. Qed.
 Print Assumptions C05_statements_correct_repaired.
 (* the fresh-name premise of the fragment is necessary: legal C with two disjoint scopes is mistranslated (D29, replayed on the real compiler) *)
-Example C05_fragment_inhabited : sfrags StmtCorrect.Example.rw imm_letter [] StmtCorrect.Example.prog StmtCorrect.Example.Vx.
+Example C05_fragment_inhabited : sfrags StmtCorrect.Example.rw imm_letter [] [] StmtCorrect.Example.prog StmtCorrect.Example.Vx StmtCorrect.Example.Vx.
 Proof. exact StmtCorrect.Example.prog_in_fragment. Qed.
 
 (* FAITHFUL model (the one tied to the code by K2), under the decidable guard "the translation of this behaviour does not
    depend on the repair switches": the same conclusion for the configuration the real compiler has today *)
 Theorem C05_statements_correct_partial :
-  forall (cfg : config) (rw : regwidth) (IM : string -> bool) (ilsubs : subenv) (E : cenv) (csub : csubs) xi prog V',
-  cfg_params cfg = [] -> im_ok IM -> sfrags rw IM [] prog V' ->
+  forall (cfg : config) (rw : regwidth) (IM : string -> bool) (ilsubs : subenv) (E : cenv) (csub : csubs) xi prog D' V',
+  cfg_params cfg = [] -> macs_std (cfg_macros cfg) -> subs_ext (cfg_subs cfg) -> csub_ext csub ->
+  im_ok IM -> sfrags rw IM [] [] prog D' V' ->
   tlower_info cfg prog = tlower_info (with_fx all_fixes cfg) prog ->
   exists eff, tlower_info cfg prog = OK (mkti eff (cfg_hstart cfg) 0 false []) /\
-    forall cs ms fuel cs', srel IM E [] cs ms -> cexecs E csub xi fuel cs prog = Some cs' ->
-      exists ms', runs rw ilsubs eff ms ms' /\ srel IM E V' cs' ms'.
+    forall cs ms fuel cs', srel IM E [] [] cs ms -> imm_fresh IM cs -> cexecs E csub xi fuel cs prog = Some cs' ->
+      exists ms', runs rw ilsubs eff ms ms' /\ srel IM E D' V' cs' ms'.
 Proof.
-  intros cfg rw IM ilsubs E csub xi prog V' Hp Him Hf Heq.
-  destruct (tlower_correct (with_fx all_fixes cfg) rw IM ilsubs E csub xi prog V') as [eff [H1 [_ H3]]].
+  intros cfg rw IM ilsubs E csub xi prog D' V' Hp Hm Hs Hc Him Hf Heq.
+  destruct (tlower_correct (with_fx all_fixes cfg) rw IM ilsubs E csub xi prog D' V') as [eff [H1 [_ H3]]].
   - destruct cfg; reflexivity.
   - destruct cfg; exact Hp.
+  - destruct cfg; exact Hm.
+  - destruct cfg; exact Hs.
+  - exact Hc.
   - exact Him.
   - exact Hf.
   - exists eff. split; [|exact H3]. rewrite Heq. destruct cfg; exact H1.
